@@ -12,6 +12,7 @@ fn emit(out: &mut impl Write, ori: u64, target: u64) {
     let r = quiet_catch(move || amd::verif_gen_branch(ori as usize, target as usize));
     match r {
         Ok(b) => writeln!(out, "x86br {} {:x} {:x} | ok {}", mode_char(), ori, target, hexb(&b)).unwrap(),
+        Err(m) if m == ACCESSOR_ABSENT => note_absent(out, "generate_branch_to_target_function(usize, usize) -> Vec<u8>"),
         Err(_) => writeln!(out, "x86br {} {:x} {:x} | panic", mode_char(), ori, target).unwrap(),
     }
 }
